@@ -902,9 +902,15 @@ package larking
 //@   ensures [payload-event C18] result != nil && result.Client == client && result.Length == len(payload) && (len(payload) <= 4611686018427387904 ==> result.WireLength == len(payload) + 5)
 //@   oracle result.Client == client && result.Length == len(payload) && result.WireLength == len(payload)+5
 
+// (dispatch follows the handler table of the snapshot it is given: the handler
+// returned is one of the entries registered for that method name, and a method
+// with at least one entry is never reported unimplemented)
 //@ func (*state).pickMethodHandler serves C11 C09
 //@   returns (hd, err)
 //@   ensures [no-handler-with-error C11] err != nil ==> hd == nil
+//@   ensures [picks-a-registered-handler C11] err == nil ==> s != nil && maphas(s.handlers, name)
+//@        && (exists k :: off(mapval(s.handlers, name)) <= k && k < off(mapval(s.handlers, name)) + len(mapval(s.handlers, name)) && hd == at(mapval(s.handlers, name), k))
+//@   ensures [live-method-is-served C11] s != nil && s.handlers != nil && maphas(s.handlers, name) && len(mapval(s.handlers, name)) > 0 ==> err == nil
 
 //@ func (*state).match serves C01 C09
 //@   returns (m, ps, err)
